@@ -222,12 +222,151 @@ Proof.
      try subst sch; try (exfalso; tauto); auto 10).
 Qed.
 
+(* ------------------------------------------------------------------ authority: nothing is lost *)
+Lemma suffix_refl {A} (l : list A) : suffix_of l l.
+Proof. exists []. reflexivity. Qed.
+Lemma suffix_trans {A} (a b c : list A) : suffix_of a b -> suffix_of b c -> suffix_of a c.
+Proof. intros [p ->] [q ->]. exists (q ++ p). rewrite app_assoc. reflexivity. Qed.
+Lemma suffix_cons {A} (x : A) (a l : list A) : suffix_of a l -> suffix_of a (x :: l).
+Proof. intros [p ->]. exists (x :: p). reflexivity. Qed.
+Lemma suffix_app_r {A} (a b : list A) : suffix_of b (a ++ b).
+Proof. exists a. reflexivity. Qed.
+
+Lemma drop_while_suffix {A} (f : A -> bool) l : suffix_of (drop_while f l) l.
+Proof.
+  induction l as [|x l IH]; cbn; [apply suffix_refl|].
+  destruct (f x); [apply suffix_cons; exact IH|apply suffix_refl].
+Qed.
+
+Lemma scheme_loop_suffix l s r : scheme_loop l = Some (s, r) -> suffix_of r l.
+Proof.
+  revert s r; induction l as [|c l IH]; intros s r H; cbn in H; [discriminate|].
+  destruct (N.eqb c COLON). { inversion H; subst. apply suffix_cons, suffix_refl. }
+  destruct (is_lower c || is_digit c || N.eqb c PLUS || N.eqb c MINUS || N.eqb c DOT).
+  { destruct (scheme_loop l) as [[s' r']|] eqn:E; [|discriminate]. inversion H; subst.
+    apply suffix_cons. eapply IH; eauto. }
+  destruct (is_upper c); [|discriminate].
+  destruct (scheme_loop l) as [[s' r']|] eqn:E; [|discriminate]. inversion H; subst.
+  apply suffix_cons. eapply IH; eauto.
+Qed.
+
+Definition auth_break (sp : bool) (c : N) : bool :=
+  N.eqb c SLASH || N.eqb c QMARK || N.eqb c HASH || (sp && N.eqb c BSLASH).
+
+Lemma authority_chars_cons sp c r :
+  authority_chars sp (c :: r) = if auth_break sp c then [] else c :: authority_chars sp r.
+Proof. reflexivity. Qed.
+
+Lemma authority_chars_no_break sp l c : In c (authority_chars sp l) -> auth_break sp c = false.
+Proof.
+  induction l as [|x l IH]; [intros []|]. rewrite authority_chars_cons.
+  destruct (auth_break sp x) eqn:E; [intros []|]. intros [<-|H]; auto.
+Qed.
+
+(* what find_last_at returns is either the accumulator or a suffix of the input that lies inside
+   the authority and has no '@' left in its own authority part *)
+Lemma find_last_at_spec sp l : forall n last k rem,
+  find_last_at sp l n last = Some (k, rem) ->
+  (last = Some (k, rem) /\ existsb (N.eqb AT) (authority_chars sp l) = false) \/
+  (exists pre, l = pre ++ rem /\ authority_chars sp l = pre ++ authority_chars sp rem /\
+               existsb (N.eqb AT) (authority_chars sp rem) = false).
+Proof.
+  induction l as [|c r IH]; intros n last k rem H; cbn [find_last_at] in H.
+  - left. split; [exact H|reflexivity].
+  - rewrite authority_chars_cons. unfold auth_break.
+    destruct (N.eqb c AT) eqn:Eat.
+    + apply N.eqb_eq in Eat. subst c.
+      change (N.eqb AT SLASH || N.eqb AT QMARK || N.eqb AT HASH || (sp && N.eqb AT BSLASH))
+        with (false || (sp && false)). rewrite andb_false_r. cbn [orb].
+      apply IH in H as [(E & Hn)|(pre & -> & Ha & Hn)].
+      * inversion E; subst. right. exists [AT]. repeat split; auto.
+      * right. exists (AT :: pre). rewrite Ha. repeat split; auto.
+    + destruct (N.eqb c SLASH || N.eqb c QMARK || N.eqb c HASH) eqn:Eb.
+      { cbn [orb]. left. split; [exact H|reflexivity]. }
+      destruct (N.eqb c BSLASH && sp) eqn:Es.
+      { rewrite andb_comm in Es. rewrite Es. cbn [orb]. left. split; [exact H|reflexivity]. }
+      rewrite andb_comm in Es. rewrite Es. cbn [orb].
+      apply IH in H as [(E & Hn)|(pre & -> & Ha & Hn)].
+      * left. split; [exact E|]. cbn [existsb]. rewrite N.eqb_sym, Eat. exact Hn.
+      * right. exists (c :: pre). rewrite Ha. repeat split; auto.
+Qed.
+
+Lemma find_last_at_none sp l : forall n last,
+  find_last_at sp l n last = None ->
+  last = None /\ existsb (N.eqb AT) (authority_chars sp l) = false.
+Proof.
+  induction l as [|c r IH]; intros n last H; cbn [find_last_at] in H; [split; [exact H|reflexivity]|].
+  rewrite authority_chars_cons. unfold auth_break.
+  destruct (N.eqb c AT) eqn:Eat.
+  { apply IH in H as [H _]. discriminate. }
+  destruct (N.eqb c SLASH || N.eqb c QMARK || N.eqb c HASH) eqn:Eb.
+  { cbn [orb]. split; [exact H|reflexivity]. }
+  destruct (N.eqb c BSLASH && sp) eqn:Es; rewrite andb_comm in Es; rewrite Es; cbn [orb].
+  { split; [exact H|reflexivity]. }
+  apply IH in H as [H Hn]. split; [exact H|]. cbn [existsb]. rewrite N.eqb_sym, Eat. exact Hn.
+Qed.
+
+Lemma parse_userinfo_detail ser a sp ser' rem :
+  parse_userinfo ser a sp = POk (ser', rem) ->
+  exists ui pre, ser' = ser ++ ui /\ all_ascii ui = true /\ a = pre ++ rem /\
+    authority_chars sp a = pre ++ authority_chars sp rem /\
+    existsb (N.eqb AT) (authority_chars sp rem) = false.
+Proof.
+  intros H. destruct (parse_userinfo_spec _ _ _ _ _ H) as (ui & -> & Hui). exists ui.
+  unfold parse_userinfo in H.
+  destruct (find_last_at sp a 0 None) as [[n remaining]|] eqn:E.
+  - assert (rem = remaining).
+    { destruct n; [inversion H; reflexivity|].
+      destruct (userinfo_loop (S n) a ser false false false) as [[[s1 hu] hp]|]; [|discriminate].
+      inversion H; reflexivity. }
+    subst remaining. apply find_last_at_spec in E as [(E & _)|(pre & Ha & Hb & Hn)]; [discriminate|].
+    exists pre. auto.
+  - inversion H; subst. exists []. apply find_last_at_none in E as [_ E]. repeat split; auto.
+Qed.
+
+Definition host_stop (sp ins : bool) (c : N) : bool :=
+  (N.eqb c COLON && negb ins) || (N.eqb c BSLASH && sp) || (N.eqb c SLASH || N.eqb c QMARK || N.eqb c HASH).
+
+Lemma host_stop_terminator sp ins c : host_stop sp ins c = true -> host_terminator sp c = true.
+Proof. unfold host_stop, host_terminator. destruct sp, ins; lia. Qed.
+
+(* with no tab/LF/CR in the authority the host loop consumes a prefix of the authority and
+   counts exactly the characters it consumes *)
+Lemma host_scan_clean sp l : forall ins ni co,
+  existsb ignored_host (authority_chars sp l) = false ->
+  exists k, host_scan sp l ins false ni co = (false, ni + k, co + k, drop k l)%nat /\
+    authority_chars sp l = take k l ++ authority_chars sp (drop k l) /\
+    (drop k l = [] \/ exists c r, drop k l = c :: r /\ host_terminator sp c = true).
+Proof.
+  induction l as [|c r IH]; intros ins ni co Hi.
+  - exists O. cbn. rewrite !Nat.add_0_r. auto.
+  - cbn [host_scan].
+    destruct (N.eqb c COLON && negb ins) eqn:E1.
+    { exists O. rewrite !Nat.add_0_r. split; [reflexivity|]. split; [reflexivity|]. right.
+      exists c, r. split; [reflexivity|]. apply (host_stop_terminator sp ins). unfold host_stop. rewrite E1. reflexivity. }
+    destruct (N.eqb c BSLASH && sp) eqn:E2.
+    { exists O. rewrite !Nat.add_0_r. split; [reflexivity|]. split; [reflexivity|]. right.
+      exists c, r. split; [reflexivity|]. apply (host_stop_terminator sp ins). unfold host_stop. rewrite E1, E2. reflexivity. }
+    destruct (N.eqb c SLASH || N.eqb c QMARK || N.eqb c HASH) eqn:E3.
+    { exists O. rewrite !Nat.add_0_r. split; [reflexivity|]. split; [reflexivity|]. right.
+      exists c, r. split; [reflexivity|]. apply (host_stop_terminator sp ins). unfold host_stop. rewrite E1, E2, E3. reflexivity. }
+    assert (Hb : auth_break sp c = false).
+    { unfold auth_break. rewrite E3. rewrite andb_comm in E2. rewrite E2. reflexivity. }
+    rewrite authority_chars_cons, Hb in Hi. cbn [existsb] in Hi. apply orb_false_iff in Hi as [Hc Hr].
+    rewrite Hc.
+    assert (G : forall ins', exists k,
+               host_scan sp r ins' false (S ni) (S co) = (false, ni + k, co + k, drop k (c :: r))%nat /\
+               authority_chars sp (c :: r) = take k (c :: r) ++ authority_chars sp (drop k (c :: r)) /\
+               (drop k (c :: r) = [] \/ exists c' r', drop k (c :: r) = c' :: r' /\ host_terminator sp c' = true)).
+    { intros ins'. destruct (IH ins' (S ni) (S co) Hr) as (k & Hk & Ha & Ht). exists (S k).
+      split; [rewrite Hk; f_equal; f_equal; [f_equal; lia|lia]|].
+      split; [|exact Ht]. rewrite authority_chars_cons, Hb. cbn [take firstn drop skipn app]. f_equal. exact Ha. }
+    destruct (N.eqb c LBRACK); [apply G|]. destruct (N.eqb c RBRACK); apply G.
+Qed.
+
 (* ------------------------------------------------------------------ host *)
-Section WithOracles.
+Section Scanner.
 Variable idna : str -> option str.
-Variable psl : str -> nat * nat.
-Variable hash : str -> N.
-Variable tokenize : str -> list N.
 Hypothesis Hidna : idna_contract idna.
 
 Lemma parse_host_spec ser input sp ser' he rem :
@@ -355,6 +494,131 @@ Proof.
   apply starts_char_ascii; [apply all_ascii_drop; exact Hh|exact Hr].
 Qed.
 
+(* ------------------------------------------------------------------ nothing is lost (outside F21) *)
+Lemma encode_all_app a b : encode_all (a ++ b) = encode_all a ++ encode_all b.
+Proof. unfold encode_all. apply flat_map_app. Qed.
+
+Lemma existsb_false_In {A} (f : A -> bool) l x : existsb f l = false -> In x l -> f x = false.
+Proof.
+  intros H Hx. destruct (f x) eqn:E; [|reflexivity].
+  assert (existsb f l = true) by (apply existsb_exists; eauto). congruence.
+Qed.
+
+Lemma parse_host_detail ser l sp ser' he rem :
+  parse_host idna ser l sp = POk (ser', he, rem) ->
+  existsb ignored_host (authority_chars sp l) = false ->
+  existsb (N.eqb AT) (authority_chars sp l) = false ->
+  exists host_cps h,
+    l = host_cps ++ rem /\ ser' = ser ++ h /\ he = length ser' /\
+    host_out idna (encode_all host_cps) h /\
+    existsb (host_forbidden sp) host_cps = false /\
+    (rem = [] \/ exists c r, rem = c :: r /\ host_terminator sp c = true).
+Proof.
+  intros H Hi Hat. unfold parse_host in H.
+  destruct (host_scan_clean sp l false 0 0 Hi) as (k & Hk & Ha & Ht). rewrite Hk in H. cbn [Nat.add] in H.
+  exists (take k l). 
+  assert (Hf : existsb (host_forbidden sp) (take k l) = false).
+  { destruct (existsb (host_forbidden sp) (take k l)) eqn:E; [|reflexivity].
+    apply existsb_exists in E as (c & Hc & Hfc).
+    assert (Hin : In c (authority_chars sp l)) by (rewrite Ha; apply in_or_app; left; exact Hc).
+    pose proof (authority_chars_no_break sp l c Hin) as Hb.
+    pose proof (existsb_false_In _ _ c Hat Hin) as Hn. cbn beta in Hn.
+    unfold host_forbidden in Hfc. unfold auth_break in Hb. rewrite (N.eqb_sym c AT) in Hfc. lia. }
+  destruct (all_ascii (encode_all (take k l))) eqn:E.
+  - inversion H; subst. exists (encode_all (take k l)).
+    repeat split; auto; [symmetry; apply take_drop|left; auto].
+  - destruct (idna (encode_all (take k l))) as [e|] eqn:Ei; [|discriminate].
+    inversion H; subst. exists e. repeat split; auto; [symmetry; apply take_drop|right; auto].
+Qed.
+
+(* shape of a scan through the authority branch, for an input without tab/LF/CR in the authority *)
+Lemma after_double_slash_detail ser0 a sp se0 ser se hs he :
+  after_double_slash idna ser0 a sp se0 = POk (ser, se, hs, he) ->
+  existsb ignored_host (authority_chars sp a) = false ->
+  exists ui host_cps rest_cps h,
+    suffix_of (host_cps ++ rest_cps) a /\
+    ser = (ser0 ++ [SLASH; SLASH] ++ ui) ++ h ++ encode_all rest_cps /\
+    hs = length (ser0 ++ [SLASH; SLASH] ++ ui) /\ he = (hs + length h)%nat /\
+    host_out idna (encode_all host_cps) h /\
+    existsb (host_forbidden sp) host_cps = false /\
+    (rest_cps = [] \/ exists c r, rest_cps = c :: r /\ host_terminator sp c = true).
+Proof.
+  unfold after_double_slash. intros H Hi.
+  destruct (parse_userinfo (ser0 ++ [SLASH; SLASH]) a sp) as [[s1 rem1]|] eqn:E1; [|discriminate].
+  apply parse_userinfo_detail in E1 as (ui & pre & -> & Hui & Ha & Hauth & Hat).
+  destruct (parse_host idna _ rem1 sp) as [[[s2 he2] rem2]|] eqn:E2; [|discriminate].
+  assert (Hi1 : existsb ignored_host (authority_chars sp rem1) = false).
+  { rewrite Hauth, existsb_app in Hi. apply orb_false_iff in Hi. apply Hi. }
+  apply (parse_host_detail _ _ _ _ _ _) in E2 as (hc & h & Hl & -> & -> & Ho & Hf & Ht); auto.
+  inversion H; subst; clear H.
+  exists ui, hc, rem2, h. rewrite <- !app_assoc. repeat split; auto.
+  - exists pre. reflexivity.
+  - rewrite !app_length. cbn [length]. lia.
+Qed.
+
+Theorem scan_preserves_tail input ser se hs he :
+  scan_chars idna input = POk (ser, se, hs, he) -> (hs < he)%nat ->
+  F21_ignored_chars_in_host input = false ->
+  exists sp host_cps rest_cps h,
+    suffix_of (host_cps ++ rest_cps) (trim_input input) /\
+    slice ser hs he = Ok h /\ drop he ser = encode_all rest_cps /\
+    host_out idna (encode_all host_cps) h /\
+    existsb (host_forbidden sp) host_cps = false /\
+    (rest_cps = [] \/ exists c r, rest_cps = c :: r /\ host_terminator sp c = true).
+Proof.
+  intros H Hlt HF.
+  destruct (scan_chars_scanned _ _ _ _ _ H) as (scheme0 & mid0 & host0 & rest0 & Hsc).
+  pose proof (scanned_host _ _ _ _ _ _ _ _ Hsc) as Hslice.
+  unfold scan_chars in H. unfold F21_ignored_chars_in_host, authority_input in HF.
+  destruct (parse_scheme (trim_input input)) as [[scheme rem]|] eqn:E; [|discriminate].
+  assert (Hsuf : suffix_of rem (trim_input input)).
+  { unfold parse_scheme in E. destruct (trim_input input) as [|c l]; [discriminate|].
+    destruct (is_alpha c); [|discriminate]. eapply scheme_loop_suffix; eauto. }
+  unfold parse_with_scheme in H.
+  assert (G : forall sp a, suffix_of a rem ->
+              after_double_slash idna (scheme ++ [COLON]) a sp (length scheme) = POk (ser, se, hs, he) ->
+              existsb ignored_host (authority_chars sp a) = false ->
+              exists sp host_cps rest_cps h,
+                suffix_of (host_cps ++ rest_cps) (trim_input input) /\
+                slice ser hs he = Ok h /\ drop he ser = encode_all rest_cps /\
+                host_out idna (encode_all host_cps) h /\
+                existsb (host_forbidden sp) host_cps = false /\
+                (rest_cps = [] \/ exists c r, rest_cps = c :: r /\ host_terminator sp c = true)).
+  { intros sp a Hsa Had Hia.
+    apply after_double_slash_detail in Had as (ui & hc & rc & h & Hs1 & Hser & Hhs & Hhe & Ho & Hf & Ht); auto.
+    exists sp, hc, rc, h. split; [eapply suffix_trans; [exact Hs1|eapply suffix_trans; eauto]|].
+    assert (Hh0 : host0 = take (he - hs) (drop hs ser)).
+    { destruct Hsc. rewrite sc_ser0, sc_he0, sc_hs0. rewrite scanned_assoc.
+      replace (length (scheme0 ++ COLON :: mid0) + length host0 - length (scheme0 ++ COLON :: mid0))%nat
+        with (length host0) by lia.
+      rewrite take_drop_mid. reflexivity. }
+    rewrite Hslice, Hh0. clear Hh0 Hslice Hsc.
+    remember ((scheme ++ [COLON]) ++ [SLASH; SLASH] ++ ui) as P eqn:HP. subst ser hs he.
+    assert (Hd : drop (length P + length h) (P ++ h ++ encode_all rc) = encode_all rc).
+    { rewrite (app_assoc P h), <- app_length. apply drop_app_length. }
+    assert (Hsl : take (length P + length h - length P) (drop (length P) (P ++ h ++ encode_all rc)) = h).
+    { replace (length P + length h - length P)%nat with (length h) by lia. apply take_drop_mid. }
+    rewrite Hsl.
+    repeat split; auto. }
+  destruct (scheme_type_from scheme); [discriminate| |].
+  - eapply (G true); eauto. apply drop_while_suffix.
+  - unfold parse_non_special in H. destruct (split_double_slash rem) as [rest|] eqn:Ed.
+    + eapply (G false); eauto.
+      unfold split_double_slash in Ed. destruct rem as [|c1 [|c2 r2]]; try discriminate.
+      destruct (N.eqb c1 SLASH && N.eqb c2 SLASH); inversion Ed; subst.
+      apply suffix_cons, suffix_cons, suffix_refl.
+    + inversion H; subst. lia.
+Qed.
+
+End Scanner.
+
+Section WithOracles.
+Variable idna : str -> option str.
+Variable psl : str -> nat * nat.
+Variable hash : str -> N.
+Variable tokenize : str -> list N.
+Hypothesis Hidna : idna_contract idna.
+
 Definition parsed (ru : request_url) (scheme mid host rest : str) : Prop :=
   scanned (ru_url ru) (ru_schema_end ru) (fst (ru_hostname_pos ru)) (snd (ru_hostname_pos ru))
           scheme mid host rest /\ host <> [] /\ ru_domain ru = psl host.
@@ -368,7 +632,7 @@ Proof.
   destruct p as [[[[ser se] hs] he]|e]; [|discriminate].
   destruct (Nat.ltb hs he) eqn:L; [|discriminate].
   unfold scan in Es. destruct (decode_utf8 u) as [cps|]; [|discriminate]. inversion Es as [Es'].
-  destruct (scan_chars_scanned _ _ _ _ _ Es') as (scheme & mid & host & rest & Hsc).
+  destruct (scan_chars_scanned idna Hidna _ _ _ _ _ Es') as (scheme & mid & host & rest & Hsc).
   rewrite (scanned_host _ _ _ _ _ _ _ _ Hsc). cbn [rbind]. intros H; inversion H; subst; clear H. cbn.
   split; [exact Es|]. exists scheme, mid, host, rest. split; [exact Hsc|]. split; [|reflexivity].
   apply Nat.ltb_lt in L. destruct Hsc. intros ->. cbn in *. lia.
@@ -379,7 +643,7 @@ Proof.
   unfold valid_utf8, parse_url, scan. destruct (decode_utf8 u) as [cps|]; [intros _|congruence]. cbn [rbind].
   destruct (scan_chars idna cps) as [[[[ser se] hs] he]|e] eqn:Es; [|eexists; reflexivity].
   destruct (Nat.ltb hs he); [|eexists; reflexivity].
-  destruct (scan_chars_scanned _ _ _ _ _ Es) as (scheme & mid & host & rest & Hsc).
+  destruct (scan_chars_scanned idna Hidna _ _ _ _ _ Es) as (scheme & mid & host & rest & Hsc).
   rewrite (scanned_host _ _ _ _ _ _ _ _ Hsc). cbn [rbind]. eexists; reflexivity.
 Qed.
 
@@ -622,6 +886,66 @@ Proof.
       apply dot_suffixes_spec. exact El.
 Qed.
 
+(* ------------------------------------------------------------------ faithful normalisation *)
+Lemma encode_cp_high c b : 128 <= c -> In b (encode_cp c) -> 128 <= b.
+Proof.
+  intros Hc. unfold encode_cp. destruct (N.ltb c 128) eqn:E1; [lia|].
+  destruct (N.ltb c 2048); [|destruct (N.ltb c 65536)]; cbn [In]; intros H;
+    repeat (destruct H as [<-|H]; [lia|]); destruct H.
+Qed.
+
+Lemma existsb_encode_all (f : N -> bool) l :
+  (forall b, f b = true -> b < 128) -> existsb f l = false -> existsb f (encode_all l) = false.
+Proof.
+  intros Hf. induction l as [|c l IH]; [reflexivity|]. cbn [existsb encode_all flat_map].
+  intros H. apply orb_false_iff in H as [Hc Hl]. rewrite existsb_app. fold (encode_all l). rewrite (IH Hl), orb_false_r.
+  destruct (N.ltb c 128) eqn:E.
+  - unfold encode_cp. rewrite E. cbn [existsb]. rewrite Hc. reflexivity.
+  - destruct (existsb f (encode_cp c)) eqn:X; [|reflexivity].
+    apply existsb_exists in X as (b & Hb & Hfb). apply Hf in Hfb.
+    apply encode_cp_high in Hb; lia.
+Qed.
+
+Lemma host_forbidden_low sp b : host_forbidden sp b = true -> b < 128.
+Proof. unfold host_forbidden, SLASH, QMARK, HASH, AT, BSLASH. destruct sp; lia. Qed.
+
+Lemma host_forbidden_mono sp b : host_forbidden sp b = true -> host_forbidden true b = true.
+Proof. unfold host_forbidden. destruct sp; lia. Qed.
+
+Lemma existsb_mono {A} (f g : A -> bool) l : (forall x, f x = true -> g x = true) -> existsb g l = false -> existsb f l = false.
+Proof.
+  intros H Hg. destruct (existsb f l) eqn:E; [|reflexivity].
+  apply existsb_exists in E as (x & Hx & Hfx). apply H in Hfx.
+  assert (existsb g l = true) by (apply existsb_exists; eauto). congruence.
+Qed.
+
+(* Outside F21 the normalised URL keeps the host text and everything after it: the hostname is
+   the host text of the input (or its idna image when it is not ASCII), what follows the host in
+   the normalised URL is what follows it in the input, and that starts with a delimiter. *)
+Theorem normalisation_faithful u s t r input :
+  Request_new idna psl hash tokenize u s t = Ok (Some r) ->
+  decode_utf8 u = Some input ->
+  F21_ignored_chars_in_host input = false ->
+  exists sp host_cps rest_cps se hs he,
+    scan idna u = Ok (POk (url r, se, hs, he)) /\
+    suffix_of (host_cps ++ rest_cps) (trim_input input) /\
+    host_out idna (encode_all host_cps) (hostname r) /\
+    drop he (url r) = encode_all rest_cps /\
+    existsb (host_forbidden sp) host_cps = false /\
+    (rest_cps = [] \/ exists c r', rest_cps = c :: r' /\ host_terminator sp c = true) /\
+    (idna_no_delimiter idna -> existsb (host_forbidden sp) (hostname r) = false).
+Proof.
+  intros H Hd HF.
+  destruct (host_is_slice _ _ _ _ H) as (se & hs & he & Hs & Hlt & Hsl & _).
+  pose proof Hs as Hs'. unfold scan in Hs'. rewrite Hd in Hs'. inversion Hs' as [Hsc].
+  destruct (scan_preserves_tail idna Hidna _ _ _ _ _ Hsc (proj1 Hlt) HF) as (sp & hc & rc & h & A & B & C & D & E & F).
+  rewrite Hsl in B. inversion B; subst h.
+  exists sp, hc, rc, se, hs, he. repeat split; auto.
+  intros Hn. destruct D as [(Da & ->)|(Da & Di)].
+  - apply existsb_encode_all; [apply host_forbidden_low|exact E].
+  - apply Hn in Di. eapply existsb_mono; [apply host_forbidden_mono|exact Di].
+Qed.
+
 End WithOracles.
 
 (* ------------------------------------------------------------------ domain_of under the contract *)
@@ -643,3 +967,122 @@ Proof.
   unfold take. rewrite <- Hd. apply firstn_S_nth. lia.
 Qed.
 
+(* ------------------------------------------------------------------ ASCII URLs: a decidable corollary *)
+Lemma is_suffixb_complete x l : suffix_of x l -> is_suffixb x l = true.
+Proof.
+  intros [pre ->]. induction pre as [|a pre IH].
+  - destruct x; cbn [is_suffixb app]; rewrite str_eqb_refl; reflexivity.
+  - cbn [is_suffixb app]. rewrite IH. apply orb_true_r.
+Qed.
+
+Lemma skipn_skipn' {A} a b : forall (l : list A), skipn a (skipn b l) = skipn (a + b) l.
+Proof.
+  induction b as [|b IH]; intros l; [rewrite Nat.add_0_r; reflexivity|].
+  destruct l as [|x l]; [rewrite !skipn_nil; reflexivity|].
+  replace (a + S b)%nat with (S (a + b)) by lia. cbn [skipn]. apply IH.
+Qed.
+
+Lemma slice_ok_eq s a b h : slice s a b = Ok h -> h = take (b - a) (drop a s) /\ (a <= b)%nat.
+Proof.
+  unfold slice. destruct (Nat.leb a b) eqn:E; cbn [andb]; [|discriminate].
+  destruct (_ && _ && _); [|discriminate]. intros H; inversion H. split; [reflexivity|]. apply Nat.leb_le. exact E.
+Qed.
+
+Theorem ascii_url_tail_copied idna input ser se hs he :
+  idna_contract idna ->
+  scan_chars idna input = POk (ser, se, hs, he) -> (hs < he)%nat ->
+  F21_ignored_chars_in_host input = false ->
+  all_ascii (encode_all (trim_input input)) = true ->
+  is_suffixb (drop hs ser) (encode_all (trim_input input)) = true.
+Proof.
+  intros Hidna H Hlt HF Hasc.
+  destruct (scan_preserves_tail idna Hidna _ _ _ _ _ H Hlt HF) as (sp & hc & rc & h & [pre A] & B & C & D & _).
+  rewrite A in Hasc |- *. rewrite !encode_all_app in *. rewrite !all_ascii_app in Hasc.
+  apply andb_true_iff in Hasc as [_ Hasc]. apply andb_true_iff in Hasc as [Hh _].
+  destruct D as [(_ & ->)|(Dn & _)]; [|congruence].
+  apply slice_ok_eq in B as [B _].
+  assert (Hd : drop hs ser = encode_all hc ++ encode_all rc).
+  { rewrite <- (take_drop (he - hs) (drop hs ser)). rewrite <- B. f_equal.
+    unfold drop. rewrite skipn_skipn'. replace (he - hs + hs)%nat with he by lia. exact C. }
+  rewrite Hd. apply is_suffixb_complete. exists (encode_all pre). reflexivity.
+Qed.
+
+(* F21: "http://a<TAB>b.com/x" loses the last character of the host *)
+Lemma ascii_url_tail_copied_refuted_F21 :
+  exists input ser se hs he,
+    scan_chars (fun _ => None) input = POk (ser, se, hs, he) /\ (hs < he)%nat /\
+    F21_ignored_chars_in_host input = true /\
+    all_ascii (encode_all (trim_input input)) = true /\
+    is_suffixb (drop hs ser) (encode_all (trim_input input)) = false /\
+    slice ser hs he = Ok (bs "a" ++ [9] ++ bs "b.co").
+Proof.
+  exists (bs "http://a" ++ [9] ++ bs "b.com/x"). eexists. eexists. eexists. eexists.
+  split; [vm_compute; reflexivity|]. split; [vm_compute; lia|]. repeat split; vm_compute; reflexivity.
+Qed.
+
+(* F25: idna maps U+FF0F to '/', which ends up inside the reported hostname *)
+Definition psl_whole (h : str) : nat * nat := (O, length h).
+Lemma psl_whole_contract : psl_contract psl_whole.
+Proof. intros h a b H. inversion H; subst. repeat split; [lia|left; reflexivity]. Qed.
+
+Lemma hostname_no_delimiter_refuted_F25 :
+  exists idna u r input,
+    idna_contract idna /\
+    Request_new idna psl_whole (fun _ => 0) (fun _ => []) u [] [] = Ok (Some r) /\
+    decode_utf8 u = Some input /\ F21_ignored_chars_in_host input = false /\
+    existsb (host_forbidden false) (hostname r) = true /\ hostname r = bs "xn--/b-9ia.com".
+Proof.
+  exists (fun _ => Some (bs "xn--/b-9ia.com")), (hx "687474703a2f2fc3a9efbc8f622e636f6d2f78").
+  eexists. eexists. split; [intros h e H; inversion H; reflexivity|].
+  split; [vm_compute; reflexivity|]. split; [vm_compute; reflexivity|].
+  repeat split; vm_compute; reflexivity.
+Qed.
+
+(* ------------------------------------------------------------------ examples: the hypotheses are satisfiable *)
+Definition psl_example (h : str) : nat * nat :=
+  if str_eqb h (bs "sub.example.com") || str_eqb h (bs "www.example.com") then (4%nat, 15%nat)
+  else (O, length h).
+Lemma psl_example_contract : psl_contract psl_example.
+Proof.
+  intros h a b H. unfold psl_example in H.
+  destruct (str_eqb h (bs "sub.example.com")) eqn:E1.
+  { apply str_eqb_eq in E1. subst h. inversion H; subst. vm_compute. repeat split; auto; lia. }
+  destruct (str_eqb h (bs "www.example.com")) eqn:E2.
+  { apply str_eqb_eq in E2. subst h. inversion H; subst. vm_compute. repeat split; auto; lia. }
+  inversion H; subst. repeat split; [lia|left; reflexivity].
+Qed.
+Lemma idna_none_contract : idna_contract (fun _ => None).
+Proof. intros h e H. discriminate. Qed.
+Lemma idna_none_no_delimiter : idna_no_delimiter (fun _ => None).
+Proof. intros h e H. discriminate. Qed.
+
+(* a first-party websocket request with userinfo, port and upper-case scheme *)
+Example request_new_example :
+  exists r input,
+    Request_new (fun _ => None) psl_example (fun _ => 0) (fun _ => [])
+                (bs " WSS://user:pw@sub.example.com:8080/ad.js?x=1") (bs "https://www.example.com/") (bs "script")
+    = Ok (Some r) /\
+    decode_utf8 (bs " WSS://user:pw@sub.example.com:8080/ad.js?x=1") = Some input /\
+    F21_ignored_chars_in_host input = false /\
+    url r = bs "wss://user:pw@sub.example.com:8080/ad.js?x=1" /\ hostname r = bs "sub.example.com" /\
+    is_third_party r = false /\ is_supported r = true /\ request_type_of r = RT_Websocket /\
+    all_ascii (encode_all (trim_input input)) = true.
+Proof. eexists. eexists. split; [vm_compute; reflexivity|]. split; [vm_compute; reflexivity|]. repeat split. Qed.
+
+(* ------------------------------------------------------------------ generated tables vs hand-written ones *)
+Lemma cpt_table_is_L0 : cpt_table = cpt_table_L0 /\ cpt_default = RT_Other.
+Proof. split; reflexivity. Qed.
+
+Lemma url_tables_are_L0 :
+  url_special_schemes = special_schemes_L0 /\ url_file_schemes = ["file"%string] /\
+  url_ignored_next_utf8 = [9; 10; 13] /\ url_ignored_parse_host = [9; 10; 13] /\ url_trim_max = 32.
+Proof. repeat split; reflexivity. Qed.
+
+Lemma userinfo_set_is_whatwg b : b < 128 -> in_userinfo_set b = whatwg_userinfo_encode b.
+Proof.
+  intros H.
+  assert (F : forallb (fun n => Bool.eqb (in_userinfo_set (N.of_nat n)) (whatwg_userinfo_encode (N.of_nat n)))
+                      (seq 0 128) = true) by (vm_compute; reflexivity).
+  rewrite forallb_forall in F. specialize (F (N.to_nat b)).
+  rewrite N2Nat.id in F. apply Bool.eqb_prop. apply F. apply in_seq. lia.
+Qed.
